@@ -66,7 +66,13 @@ class MeshTet1(MeshSimplex, Mesh3D):
                 ix = np.arange(nelems, dtype=np.int32)
 
             X = mapping.invF(np.array([x, y, z])[:, None], ix)
-            eps = np.finfo(X.dtype).eps
+            # the rounding error of the reference coordinates is about
+            # eps * |x| * |invDF|: points on the facets of a cell, e.g. the
+            # vertices of the mesh, must not be rejected because of it
+            invDF = mapping.invDF(np.zeros((X.shape[0], 1)), ix)
+            eps = (16. * np.finfo(X.dtype).eps
+                   * (1. + np.abs(np.array([x, y, z])).max()
+                      * np.abs(invDF).max(axis=(0, 1, 3)))[:, None])
             inside = ((X[0] >= -eps) *
                       (X[1] >= -eps) *
                       (X[2] >= -eps) *
